@@ -12,10 +12,17 @@ directory tree it writes is scanned with ref/htmlscan (html.parser only):
   entry has its anchor in the page on which the documentation says it is listed
   (CodePath/CodeFiles, or the single disassembly page);
 * "Writing X" is printed at most once per path, every such X exists, and every HTML
-  file of the tree was announced (or is an entry page of an announced directory).
+  file of the tree was announced (or is an entry page of an announced directory);
+* links whose intended target is known land on it: an operand hyperlink must lead to
+  the anchor of the instruction the operand addresses (in the disassembly that owns or
+  @remote-declares it), and generated #R/#LINK macros carry their target in the link
+  text ("T:main:32770", "L:Bugs:bug1"), so a link that silently loses or changes its
+  #fragment or file is a violation even though it still "resolves".
 
 With `-w <subset>` the subset run is made in a fresh directory and its links may also
-resolve against the tree of the full run (a page kind that was not requested).
+resolve against the tree of the full run (a page kind that was not requested). The
+thorough tier also builds the shipped Hungry Horace example (control file applied to
+a blank image, ref file unchanged) with several command lines.
 """
 import os
 import posixpath
@@ -40,7 +47,7 @@ RULE = ('Hypothesis draws a project: main skool file + 0-2 secondary disassembli
         '[Paths] for code, maps, index, images, audio, CSS, JS, other-code pages, CodeFiles, [Page:*] (content, box pages of the '
         'three section types, existing-file pages), box entries for Bugs/Facts/Pokes/Glossary/Changelog, [MemoryMap:*] (custom, '
         'Includes, Write=0, EntryDescriptions), [Index*], [Resources]; options -1 -a -C -D/-H -l/-u -o -j -T -c, -w subsets, and a '
-        'second run into the same directory. Non-trivial: the tree lists >= 2 entries and contains >= 1 hyperlinked operand or '
+        'second run into the same directory. 70% of the #R/#LINK macros carry link text that names the anchor they must land on. Non-trivial: the tree lists >= 2 entries and contains >= 1 hyperlinked operand or '
         '>= 1 macro-made link with a fragment; distinct = digest of (files, command line, scenario).')
 ASSUMPTIONS = [
     '#R addresses are instruction addresses of non-ignored entries; for another disassembly either an entry address or an address '
@@ -49,11 +56,14 @@ ASSUMPTIONS = [
     'format gives an instruction of the target entry; free-text anchors are user error',
     '#LINK targets are pages that the same project writes; anchors are box-entry anchors, ids present in the custom page content, or '
     'decimal entry addresses listed on the memory map linked to',
-    '#R addr@id is not used inside disassembly id itself (skool2html aborts with "Address not found": reported separately, not a link defect)',
+    'classes on which skool2html aborts or is known to fail (F29-F34, see AVOID) are excluded by construction; their reproducers are in corpus/C16',
     'with -w <subset> a link from a written page to a page kind that was not requested may resolve against the tree of the full run',
     'page/file paths configured in [Paths] are distinct (two pages configured to the same path is user error)',
-    'F29 class excluded by construction: #LINK(map#address) with a non-default AddressAnchor is only generated where the anchor is '
-    'converted (main memory maps, from text expanded by the main writer)',
+    'a user-supplied #name on #R is honoured on entry pages and ignored on the single disassembly page (undocumented): landing on either the '
+    '#R address or the named instruction is accepted',
+    'an operand link with a fragment-less href is accepted only when the operand is the address of the entry that owns the target page',
+    'literal anchors that start with an upper-case letter (e.g. #C000 with AddressAnchor={address:04X}) are not used in #R/#LINK: the '
+    'expansion is rescanned and "#C" would be read as a macro (macro-system behaviour, outside C16)',
 ]
 
 # Classes of input that are avoided by construction because skool2html is known to fail on them (see the final
@@ -64,6 +74,7 @@ AVOID = {
     'F31': True,    # -j NAME with a StyleSheetPath directory that does not exist yet: FileNotFoundError
     'F32': True,    # #LINK(ListItems/BulletPoints box page#anchor)() with blank link text: ValueError
     'F33': True,    # #LINK(custom memory map) from a secondary disassembly whose entries would not appear on that map
+    'F34': True,    # #R addr@id used inside disassembly id itself (e.g. #R32768@main in the main skool file): "Address not found"
 }
 
 # ---------------------------------------------------------------------------
@@ -453,22 +464,33 @@ class TextGen:
             entry = d.choice(live_entries(code))
             addr = d.choice(entry['instrs'])['addr']
             suffix = ''
+            if not AVOID['F34'] and d.chance(15):
+                suffix = '@' + here
             self._count('R:own')
         anchor = ''
+        land = {addr}            # addresses whose anchor the link may land on
         k = d.int(0, 9)
         if k == 0:
             anchor = '#%d' % entry['addr']                      # evaluates to the entry address
+            land.add(entry['addr'])
         elif k == 1:
             anchor = '#$%04X' % entry['addr']
+            land.add(entry['addr'])
         elif k == 2:
-            anchor = '#' + self.afmt(d.choice(entry['instrs'])['addr'])     # literal id of an instruction of the entry
+            x = d.choice(entry['instrs'])['addr']
+            anchor = '#' + self.afmt(x)     # literal id of an instruction of the entry
             if anchor[1].isupper():
                 anchor = ''          # '#C000' in the expansion would be read as a macro named #C
+            else:
+                land.add(x)
         if anchor:
             self._count('R:anchor')
         text = ''
-        if d.chance(30):
-            text = '(%s)' % self.words(2)
+        if d.chance(70):
+            # explicit link text that tells the oracle where the link has to land: T:<disassembly>:<address>[x<address>]
+            # (a user-supplied #name is honoured on entry pages and ignored on the single disassembly page: either is accepted)
+            text = '(T:%s:%s)' % (y['id'] if use_other else here, 'x'.join(str(a) for a in sorted(land)))
+            self._count('R:landing-checked')
         return '#R%s%s%s%s' % (self.num(addr), suffix, anchor, text)
 
     # -- #LINK ------------------------------------------------------------------
@@ -492,9 +514,13 @@ class TextGen:
             elif not str(a)[0].isupper():    # '#C000' in the expansion would be read as a macro named #C
                 anchor = '#%s' % a
         self._count('LINK:' + pg['kind'] + ('#' if anchor else ''))
-        text = self.words(2) if d.chance(70) else ''
-        if anchor and pg.get('listbox') and AVOID['F32']:
-            text = text or 'item'
+        text = ''
+        if d.chance(70) or (anchor and pg.get('listbox') and AVOID['F32']):
+            # explicit link text that tells the oracle where the link has to land: L:<page id>:<expected fragment>
+            frag = anchor[1:]
+            if frag and pg['kind'] in ('map', 'omap'):
+                frag = self.afmt(int(frag))
+            text = 'L:%s:%s' % (pid, frag)
         return '#LINK(%s%s)(%s)' % (pid, anchor, text)
 
     # -- images / audio -----------------------------------------------------------------
@@ -634,7 +660,9 @@ def render_skool(d, w, tg, code):
                 tg._count('mid-block-comment')
             if live and d.chance(20):
                 label_n[0] += 1
-                lines.append('@label=%s%s%d' % (d.choice(['L', 'loop', 'DATA_']), cid.replace('$', ''), label_n[0]))
+                label = '%s%s%d' % (d.choice(['L', 'loop', 'DATA_']), cid.replace('$', ''), label_n[0])
+                lines.append('@label=' + label)
+                code.setdefault('labels', {})[label] = ins['addr']
             if ins['has_t'] and d.chance(6):
                 lines.append('@keep')
             op = ins['tmpl']
@@ -791,14 +819,21 @@ def build_model(w):
             path = p.get('AsmSinglePage', 'asm.html') if c['main'] else p.get(cid + '-AsmSinglePage', cid + '/asm.html')
             model['pages'].append({'kind': kind, 'code': cid, 'file': pjoin(path), 'single': True,
                                    'entries': [fmt_addr(o['anchor'], e['addr'], hexmode) for e in live_entries(c)],
-                                   'ids': [fmt_addr(o['anchor'], i['addr'], hexmode) for e in live_entries(c) for i in e['instrs']]})
+                                   'ids': [fmt_addr(o['anchor'], i['addr'], hexmode) for e in live_entries(c) for i in e['instrs']],
+                                   'entry_addrs': [e['addr'] for e in live_entries(c)],
+                                   'addrs': [i['addr'] for e in live_entries(c) for i in e['instrs']]})
         else:
             cdir = p.get('CodePath', 'asm') if c['main'] else p.get(cid + '-CodePath', cid)
             for e in live_entries(c):
                 model['pages'].append({'kind': kind, 'code': cid, 'single': False,
                                        'file': pjoin(cdir, codefile(o['codefiles'], e['addr'], hexmode)),
                                        'entries': [fmt_addr(o['anchor'], e['addr'], hexmode)],
-                                       'ids': [fmt_addr(o['anchor'], i['addr'], hexmode) for i in e['instrs']]})
+                                       'ids': [fmt_addr(o['anchor'], i['addr'], hexmode) for i in e['instrs']],
+                                       'entry_addrs': [e['addr']], 'addrs': [i['addr'] for i in e['instrs']]})
+    # what the landing checks need: @remote declarations and @label names per disassembly, page paths by id
+    model['remote'] = {c['id']: [[r['code'], r['addrs']] for r in c['remote']] for c in w['codes']}
+    model['labels'] = {c['id']: c.get('labels', {}) for c in w['codes']}
+    model['linkpages'] = {pid: pjoin(pg['path']) for pid, pg in w['pages'].items()}
     return model
 
 
@@ -938,6 +973,84 @@ def _classify_dups(fname, page, mpage):
     return probs
 
 
+T_RE = re.compile(r'^T:([^:]+):(\d+(?:x\d+)*)$')
+L_RE = re.compile(r'^L:([^:]+):(.*)$')
+
+
+def _expected(model, prefix, code, addr):
+    """(file, id, fragment optional) for the place where instruction `addr` of disassembly `code` is listed, or None."""
+    for mp in model['pages']:
+        if mp['code'] == code and addr in mp.get('addrs', ()):
+            return (pjoin(prefix, mp['file']), mp['ids'][mp['addrs'].index(addr)],
+                    not mp['single'] and addr in mp['entry_addrs'])
+    return None
+
+
+def _lands_on(fname, ref, exp):
+    kind, path, frag = htmlscan.split_url(ref.url)
+    if kind != 'relative' or htmlscan.resolve(fname, path) != exp[0]:
+        return False
+    if frag:
+        return frag == exp[1]
+    return exp[2]
+
+
+def _landing_problems(tree, prefix, model, mpages):
+    """Links whose intended target is known (operand links: the operand; generated #R/#LINK: encoded in the link text)
+    must land on the anchor of that target, not merely on something that exists."""
+    probs = []
+    for fname in sorted(tree):
+        page = tree[fname]
+        if page is None:
+            continue
+        mp = mpages.get(fname)
+        for ref in page.refs:
+            if ref.tag != 'a' or ref.attr != 'href':
+                continue
+            text = ref.text.strip()
+            m = T_RE.match(text)
+            if m:
+                exps = [_expected(model, prefix, m.group(1), int(a)) for a in m.group(2).split('x')]
+                exps = [e for e in exps if e]
+                if not exps:
+                    raise RuntimeError('generator/model inconsistency: no page for %s' % text)
+                if not any(_lands_on(fname, ref, e) for e in exps):
+                    probs.append(('landing:R', '%s: #R link "%s" has href="%s", expected %s' % (
+                        fname, text, ref.url, ' or '.join('%s#%s' % e[:2] for e in exps))))
+                continue
+            m = L_RE.match(text)
+            if m and m.group(1) in model.get('linkpages', {}):
+                kind, path, frag = htmlscan.split_url(ref.url)
+                target = htmlscan.resolve(fname, path) if kind == 'relative' else None
+                if target != pjoin(prefix, model['linkpages'][m.group(1)]) or (frag or '') != m.group(2):
+                    probs.append(('landing:LINK', '%s: #LINK link "%s" has href="%s", expected %s#%s' % (
+                        fname, text, ref.url, pjoin(prefix, model['linkpages'][m.group(1)]), m.group(2))))
+                continue
+            if mp is not None and 'td.instruction' in ref.ctx and 'addrs' in mp:
+                code = mp['code']
+                if text.startswith('$'):
+                    try:
+                        addr = int(text[1:], 16)
+                    except ValueError:
+                        continue
+                elif text.isdigit():
+                    addr = int(text)
+                else:
+                    addr = model.get('labels', {}).get(code, {}).get(text)
+                    if addr is None:
+                        continue
+                exps = [_expected(model, prefix, code, addr)]
+                if not exps[0]:
+                    exps = [_expected(model, prefix, rc, addr) for rc, addrs in model.get('remote', {}).get(code, ()) if addr in addrs]
+                exps = [e for e in exps if e]
+                if exps and not any(_lands_on(fname, ref, e) for e in exps):
+                    if mp['single'] and ref.url.startswith('#') and all(e[0] != fname for e in exps):
+                        continue      # F30 class: reported by the link scan as a dangling fragment
+                    probs.append(('landing:operand', '%s: operand link "%s" has href="%s", expected %s' % (
+                        fname, text, ref.url, ' or '.join('%s#%s' % e[:2] for e in exps))))
+    return probs
+
+
 def check_tree(tree, prefix, announced, model, kinds, fallback=None):
     """All problems of one written tree. prefix: odir relative to the scanned root ('' or 'x/y').
     kinds: set of -w letters in effect. Returns list of (sig, msg)."""
@@ -964,6 +1077,7 @@ def check_tree(tree, prefix, announced, model, kinds, fallback=None):
         probs.append((sig, '%s: %s %s="%s" (in %s): %s %s' % (fname, ref.tag, ref.attr, ref.url, '>'.join(ref.ctx[-3:]), kind, detail)))
     # ---- ids ------------------------------------------------------------------------------------------------
     mpages = {pjoin(prefix, mp['file']): mp for mp in model['pages']}
+    probs += _landing_problems(tree, prefix, model, mpages)
     for fname in sorted(tree):
         page = tree[fname]
         if page is not None:
@@ -1088,14 +1202,86 @@ def _record(rec, case, tree, prefix, known=()):
                                    'skool_head': case['files'][case['skool']][:300]})
 
 
+SKOOL_LINE = re.compile(r'^([bcgistuw* ])(\$[0-9A-Fa-f]{4}|\d{5}) ')
+
+
+def model_from_skool(skool, code='main', kind='d', single=False, cdir='asm', single_path='asm.html'):
+    """Entries and instruction addresses read from skool file text (default paths and formats)."""
+    entries = []
+    for line in skool.split('\n'):
+        m = SKOOL_LINE.match(line + ' ')
+        if not m:
+            continue
+        a = int(m.group(2)[1:], 16) if m.group(2)[0] == '$' else int(m.group(2))
+        if m.group(1) in 'bcgistuw':
+            entries.append([m.group(1), a, [a]])
+        elif entries:
+            entries[-1][2].append(a)
+    live = [e for e in entries if e[0] != 'i']
+    if single:
+        return [{'kind': kind, 'code': code, 'file': single_path, 'single': True, 'entries': [str(e[1]) for e in live],
+                 'ids': [str(a) for e in live for a in e[2]], 'entry_addrs': [e[1] for e in live],
+                 'addrs': [a for e in live for a in e[2]]}]
+    return [{'kind': kind, 'code': code, 'file': pjoin(cdir, '%d.html' % e[1]), 'single': False, 'entries': [str(e[1])],
+             'ids': [str(a) for a in e[2]], 'entry_addrs': [e[1]], 'addrs': list(e[2])} for e in live]
+
+
+EXAMPLE_ARGV = [[], ['-1'], ['-H', '-a', '-C'], ['-l', '-D'], ['-a', '-1', '-u'], ['-w', 'dmi'], ['-w', 'P', '-o']]
+
+
+def example_cases():
+    """The shipped Hungry Horace example: its control file applied to a blank 48K image (the game itself is not
+    available offline), its ref file unchanged; default paths, several command lines."""
+    import skoolkit
+    exdir = os.path.join(os.path.dirname(os.path.dirname(os.path.abspath(skoolkit.__file__))), 'examples')
+    ctl = os.path.join(exdir, 'hungry_horace.ctl')
+    reff = os.path.join(exdir, 'hungry_horace.ref')
+    if not (os.path.isfile(ctl) and os.path.isfile(reff)):
+        return []
+    with cli.Scratch('c16x-') as s:
+        s.write('blank.bin', bytes(49152))
+        r = cli.run('sna2skool', ['-o', 16384, '-c', ctl, 'blank.bin'])
+        if r.exc is not None or not r.ok:
+            raise RuntimeError('sna2skool failed on the Hungry Horace control file: %r %s' % (r.exc, r.err[-300:]))
+        skool = r.out
+    with open(reff) as f:
+        ref = f.read()
+    out = []
+    for argv in EXAMPLE_ARGV:
+        single = '-1' in argv
+        case = {'files': {'hungry_horace.skool': skool, 'hungry_horace.ref': ref}, 'skool': 'hungry_horace.skool',
+                'argv': [a for a in argv if a not in ('-w', 'dmi', 'P')], 'scenario': 'full',
+                'model': {'single': single, 'pages': model_from_skool(skool, single=single),
+                          'maps': ['maps/all.html', 'maps/routines.html', 'maps/data.html', 'maps/messages.html', 'maps/unused.html']}}
+        if '-w' in argv:
+            case['scenario'] = 'subset'
+            case['write'] = argv[argv.index('-w') + 1]
+        out.append(case)
+    return out
+
+
 def plan(tier, seed):
     n = 2400 if tier == 'quick' else 48000
     nsh = 16 if tier == 'quick' else 64
-    return [{'kind': 'hyp', 'tier': tier, 'n': n // nsh, 'seed': shard_seed(seed, PROPERTY, i)} for i in range(nsh)]
+    shards = [{'kind': 'hyp', 'tier': tier, 'n': n // nsh, 'seed': shard_seed(seed, PROPERTY, i)} for i in range(nsh)]
+    if tier != 'quick':
+        shards.insert(0, {'kind': 'example'})
+    return shards
 
 
 def run_shard(shard, rec):
-    hyp_run(rec, CASES, lambda c: oracle(c, rec), shard['n'], shard['seed'])
+    if shard['kind'] == 'example':
+        cases_ = example_cases()
+        if not cases_:
+            rec.note('example-not-available')
+        for case in cases_:
+            try:
+                oracle(case, rec)
+            except Violation as v:
+                rec.violation(v)
+        return
+    # a broken tree makes almost every case fail: bound the time spent shrinking and enumerating buckets per shard
+    hyp_run(rec, CASES, lambda c: oracle(c, rec), shard['n'], shard['seed'], max_buckets=3, shrink_budget_s=25.0)
 
 
 def replay(case):
@@ -1107,15 +1293,31 @@ def known_class(sig, case):
     #      entry's first instruction <span id="ADDR"> the same id. Only that pair, only in the single disassembly page.
     # F28: the asm templates give a mid-block (or start) comment row <span id="ADDR"> and the instruction below it
     #      <span id="ADDR"> the same id. Only that pair.
-    # F30: single-page mode; an operand that addresses an @remote entry is linked to "#ADDR" of the current page although
-    #      the entry is on the other disassembly's page (the generator avoids the class).
     # F29: #LINK(map#address): the address is converted to the AddressAnchor format only for main memory maps looked up in
-    #      the current writer's own entries (the generator avoids the class; the signature is recognised for the reproducer).
-    return KNOWN_SIGS.get(sig)
+    #      the current writer's own entries.
+    # F30: single-page mode; an operand that addresses an @remote entry is linked to "#ADDR" of the current page although
+    #      the entry is on the other disassembly's page.
+    # F31-F34 abort the run (no tree to judge); see AVOID. All of F29-F34 are avoided by construction while AVOID[id] is set;
+    # the signatures are recognised so that the reproducers in corpus/C16 replay as known findings.
+    if sig in KNOWN_SIGS:
+        return KNOWN_SIGS[sig]
+    if not isinstance(case, dict) or 'files' not in case:
+        return None
+    texts = '\n'.join(case['files'].values())
+    argv = case.get('argv', [])
+    if sig == 'skool2html:FileNotFoundError@skool2html.py:copy_resources' and '-j' in argv and 'StyleSheetPath=' in texts:
+        return 'F31'
+    if sig == 'skool2html:ValueError@skoolhtml.py:expand_link' and re.search(r'#LINK\([^)]*#[^)]*\)\(\)', texts):
+        return 'F32'
+    if sig.startswith('skool2html-error:Error while parsing #LINK macro: Unknown page ID') and '[OtherCode:' in texts and '[MemoryMap:' in texts:
+        return 'F33'
+    if sig.startswith('skool2html-error:Error while parsing #R macro: Address not found') and re.search(r'#R[^@\s]*@main', case['files'].get(case.get('skool'), '')):
+        return 'F34'
+    return None
 
 
 MANIFEST_ENTRY = {
     'technique': 'validity-predicate oracle (html.parser link/anchor scan of the written directory tree) over Hypothesis-generated skool+ref projects and skool2html command lines',
-    'level_text': 'For each generated project the real skool2html.main is run in a scratch directory; every relative href/src of every written HTML file must name a written or copied file and an existing id, ids must be unique per file, every entry and instruction of every disassembly must have its anchor on the page where the documentation places it, and the "Writing" lines must match the tree without repeats; -w subsets and second runs into the same directory are checked as well.',
-    'level_note': 'Sampled inputs: 1-3 disassemblies of 1-6 small entries. Generated #R/#LINK targets are restricted to what the documentation allows (existing instruction addresses, declared @remote addresses, anchors that evaluate to the entry address or spell an existing id). Known classes F15/F28 (duplicate ids produced by the stock templates) are counted and excluded; F29 is avoided by construction.',
+    'level_text': 'For each generated project the real skool2html.main is run in a scratch directory; every relative href/src of every written HTML file must name a written or copied file and an existing id, ids must be unique per file, every entry and instruction of every disassembly must have its anchor on the page where the documentation places it, operand links and target-tagged #R/#LINK links must land on the anchor of their target, and the "Writing" lines must match the tree without repeats; -w subsets and second runs into the same directory are checked as well.',
+    'level_note': 'Sampled inputs: 1-3 disassemblies of 1-6 small entries (thorough: plus the shipped Hungry Horace example over a blank image). Generated #R/#LINK targets are restricted to what the documentation allows (existing instruction addresses, declared @remote addresses, anchors that evaluate to the entry address or spell an existing id). Known classes F15/F28 (duplicate ids produced by the stock templates) are counted and excluded; F29-F34 are avoided by construction (flags in AVOID).',
 }
